@@ -283,7 +283,7 @@ def pool_status(element, assignment):
     return "IS_REQUIRED_AND_EMPTY"
 
 
-def model(tree, assignment, soll_is_required, roots=None):
+def model(tree, assignment, soll_is_required, roots=None, parent=None):
     """
     expected [(discriminator, status | None)] in document order; status None = not constrained here.
     Faulted nodes (expr["fault"]) are optional (C16).  Raises ModelNotImplemented for an undetermined MUSS/prefix node.
@@ -320,8 +320,10 @@ def model(tree, assignment, soll_is_required, roots=None):
                 out.append((element["d"], pool_status(element, assignment)))
 
     for root in roots if roots is not None else tree["groups"]:
-        if "groups" in root:
-            walk_group(root, None)
+        if parent == "IS_FORBIDDEN":
+            out.append((root["d"], "IS_FORBIDDEN"))  # a forbidden parent forbids the node; nothing below is reported
+        elif "groups" in root:
+            walk_group(root, parent)
         else:
-            walk_segment(root, None)
+            walk_segment(root, parent)
     return out
